@@ -10,6 +10,7 @@ proposition and the proof below has to go through again.
 -/
 import SqModel.Generated.TransSafe
 import SqModel.Proofs.BridgeTable
+import SqModel.Proofs.SafeCpr
 
 namespace Sq.Safe
 open Sq Bridge Spec
@@ -793,6 +794,11 @@ theorem update_from_ext_19_safe (te : TEnv) (self : T.Plane) (m : Msg) (L : Long
     · trivial
   · peel L
 
+theorem update_position_safe (te : TEnv) (self : T.Plane) (mt form : Nat) (hf : form ≤ 1) :
+    T.Plane.update_position.safe te self mt form := by
+  unfold T.Plane.update_position.safe
+  exact ⟨fun _ _ => cpr_location_safe _ _ form 4 hf (Or.inr rfl), fun _ _ => cpr_location_safe _ _ form 1 hf (Or.inl rfl)⟩
+
 theorem update_cpr_safe (te : TEnv) (self : T.Plane) (m : Msg) (L : Long m) (mt : Nat) : T.Plane.update_cpr.safe te self m mt := by
   unfold T.Plane.update_cpr.safe
   refine ⟨cpr_safe m L, ?_⟩
@@ -800,7 +806,7 @@ theorem update_cpr_safe (te : TEnv) (self : T.Plane) (m : Msg) (L : Long m) (mt 
   · rename_i f la lo heq
     rw [Option.filter_eq_some_iff] at heq
     have : f ≤ 1 := by simpa using heq.2
-    refine ⟨?_, ?_, ?_, ?_, ?_⟩ <;> first | omega | (intros; trivial) | trivial
+    refine ⟨?_, ?_, ?_, ?_, ?_⟩ <;> first | omega | exact update_position_safe te _ _ _ this | (intros; trivial) | trivial
   · trivial
 
 
@@ -905,7 +911,7 @@ theorem amend_from_ext_19_safe (self : T.Plane) (d : T.Ext) (hA : AltOK self) (h
 theorem amend_cpr_safe (te : TEnv) (self : T.Plane) (d : T.Ext) (hE : ExtOK d) : T.Plane.amend_cpr.safe te self d := by
   unfold T.Plane.amend_cpr.safe
   refine ⟨?_, ?_, ?_, ?_, ?_⟩ <;> (split <;> first | trivial | skip)
-  all_goals (rename_i f la lo hq; intros; first | exact hE.1 f la lo hq | trivial)
+  all_goals (rename_i f la lo hq; intros; first | exact hE.1 f la lo hq | exact update_position_safe te _ _ _ (Nat.le_of_lt_succ (hE.1 f la lo hq)) | trivial)
 
 theorem amend_from_ext_5_8_safe (te : TEnv) (self : T.Plane) (d : T.Ext) (hE : ExtOK d) : T.Plane.amend_from_ext_5_8.safe te self d :=
   amend_cpr_safe te _ d hE
@@ -1099,7 +1105,6 @@ theorem Mds_new_safe'  : T.Mds.new.safe  := trivial
 theorem Plane_amend_from_ext_1_4_safe' (self : T.Plane) (dl : T.Ext) : T.Plane.amend_from_ext_1_4.safe self dl := trivial
 theorem Plane_amend_from_ext_20_22_safe' (self : T.Plane) (dl : T.Ext) : T.Plane.amend_from_ext_20_22.safe self dl := trivial
 theorem Plane_amend_from_ext_31_safe' (self : T.Plane) (dl : T.Ext) : T.Plane.amend_from_ext_31.safe self dl := trivial
-theorem Plane_update_position_safe' (tenv : TEnv) (self : T.Plane) (message_type : Nat) (cpr_form : Nat) : T.Plane.update_position.safe tenv self message_type cpr_form := trivial
 theorem Plane_update_from_downlink_Mds_safe' (self : T.Plane) (dl : T.Mds) : T.Plane.update_from_downlink_Mds.safe self dl := trivial
 theorem Plane_update_from_downlink_Srt_safe' (self : T.Plane) (dl : T.Srt) : T.Plane.update_from_downlink_Srt.safe self dl := trivial
 theorem Plane_update_from_ext_1_4_safe' (self : T.Plane) (message : Msg) (message_type : Nat) (message_subtype : Nat) : T.Plane.update_from_ext_1_4.safe self message message_type message_subtype := trivial
